@@ -4,7 +4,8 @@ sharded), the harness concretises each case, replays it into the real Ribosome (
 import json, os, shutil, subprocess, concurrent.futures as cf
 from . import base, tlc, flat
 
-WORD = {1: "  Alpha One ", 2: "Bravo", 3: "carl", 4: "Delta", 5: "Echo:", 6: "fox Trot", 7: "Golf ", 8: "Hotel", 9: "india>"}
+# text atoms; those that travel as data (values 1-2, loop item 3, default 8) carry backslashes, group references and regex metacharacters: "emitted verbatim"
+WORD = {1: "  Alpha \\1 One ", 2: "Bra\\vo\\\\ $1", 3: "ca\\rl \\g<0> \\d+ (x", 4: "Delta", 5: "Echo:", 6: "fox Trot", 7: "Golf ", 8: "Ho\\tel \\2 [z", 9: "india>"}
 NSH = 8
 
 
